@@ -51,6 +51,11 @@ func implies(e ast.Expr, polarity bool, atom guardAtom) bool {
 // it). Nested function literals are opaque: a target inside a literal is located by the
 // statement that contains the literal.
 func guardedBy(body *ast.BlockStmt, target ast.Node, atom guardAtom) bool {
+	return guardedByEdge(body, target, func(cond ast.Expr, polarity bool) bool { return implies(cond, polarity, atom) })
+}
+
+// guardedByEdge is guardedBy with an arbitrary predicate on (condition, outcome) edges.
+func guardedByEdge(body *ast.BlockStmt, target ast.Node, pass func(cond ast.Expr, polarity bool) bool) bool {
 	if body == nil {
 		return false
 	}
@@ -84,7 +89,7 @@ func guardedBy(body *ast.BlockStmt, target ast.Node, atom guardAtom) bool {
 		for i, s := range b.Succs {
 			if len(b.Succs) == 2 && len(b.Nodes) > 0 {
 				if cond, ok := b.Nodes[len(b.Nodes)-1].(ast.Expr); ok {
-					if implies(cond, i == 0, atom) {
+					if pass(cond, i == 0) {
 						continue // pass edge: the guard holds beyond it
 					}
 				}
